@@ -394,16 +394,22 @@ type recTransport struct {
 	ops []recOp
 }
 
-func (r *recTransport) Read(p []byte) (int, error)        { return 0, fmt.Errorf("write only") }
-func (r *recTransport) ReadByte() (byte, error)           { return 0, fmt.Errorf("write only") }
-func (r *recTransport) Write(p []byte) (int, error)       { r.ops = append(r.ops, recOp{"W", len(p)}); return len(p), nil }
-func (r *recTransport) WriteString(s string) (int, error) { r.ops = append(r.ops, recOp{"S", len(s)}); return len(s), nil }
-func (r *recTransport) WriteByte(c byte) error            { r.ops = append(r.ops, recOp{"B", 1}); return nil }
-func (r *recTransport) Flush(ctx context.Context) error   { return nil }
-func (r *recTransport) RemainingBytes() uint64            { return 0 }
-func (r *recTransport) Open() error                       { return nil }
-func (r *recTransport) Close() error                      { return nil }
-func (r *recTransport) IsOpen() bool                      { return true }
+func (r *recTransport) Read(p []byte) (int, error) { return 0, fmt.Errorf("write only") }
+func (r *recTransport) ReadByte() (byte, error)    { return 0, fmt.Errorf("write only") }
+func (r *recTransport) Write(p []byte) (int, error) {
+	r.ops = append(r.ops, recOp{"W", len(p)})
+	return len(p), nil
+}
+func (r *recTransport) WriteString(s string) (int, error) {
+	r.ops = append(r.ops, recOp{"S", len(s)})
+	return len(s), nil
+}
+func (r *recTransport) WriteByte(c byte) error          { r.ops = append(r.ops, recOp{"B", 1}); return nil }
+func (r *recTransport) Flush(ctx context.Context) error { return nil }
+func (r *recTransport) RemainingBytes() uint64          { return 0 }
+func (r *recTransport) Open() error                     { return nil }
+func (r *recTransport) Close() error                    { return nil }
+func (r *recTransport) IsOpen() bool                    { return true }
 
 func (r *recTransport) total() int {
 	t := 0
